@@ -18,6 +18,18 @@ def main():
     with open(tmp, "w") as f:
         json.dump(res, f, allow_nan=True)
     os.replace(tmp, args["out"])
+    # The result is on disk. Leave without running interpreter-exit finalizers: checks that drive real worker processes
+    # terminate coba's (daemon) children themselves, and multiprocessing's atexit join of a queue feeder thread can then
+    # block for ever on a queue lock that a killed child still holds - that would hang the shard after its work is done.
+    try:
+        import multiprocessing
+        for child in multiprocessing.active_children():   # no orphaned worker processes
+            try: child.kill()
+            except Exception: pass
+    except Exception:
+        pass
+    sys.stdout.flush(); sys.stderr.flush()
+    os._exit(0)
 
 if __name__ == "__main__":
     main()
